@@ -30,6 +30,7 @@ func runC09(c *Ctx) {
 	c.ruleR09c("R09c anchored-consistently-keyed-regexps")
 	c.ruleR09d("R09d remaining-and-eof-linear-form")
 	c.ruleR09e("R09e word-boundary-alphabet")
+	c.ruleR09f("R09f rune-narrowing-only-for-ascii")
 }
 
 // readerFns: the methods of *text.Reader.
